@@ -92,3 +92,895 @@ Proof.
       assert (Z.log2 t < k) by (apply Z.log2_lt_pow2; lia). lia. }
   rewrite <- (Z.lxor_lor _ _ Hd), <- (Z.add_nocarry_lxor _ _ Hd). reflexivity.
 Qed.
+
+(* ---- refill: bytes move from the source to the buffer; what remains to be read does not change ---- *)
+Lemma zlength_app {A} (a b : list A) : zlength (a ++ b) = zlength a + zlength b.
+Proof. unfold zlength. rewrite app_length. lia. Qed.
+
+Lemma remaining_push r b src : 0 <= c_bits_read r <= 8 * zlength (c_buffer r) -> c_source r = b :: src ->
+  remaining (mkC src (c_buffer r ++ [b]) (c_bits_read r)) = remaining r.
+Proof.
+  intros Hbr Hs. unfold remaining. cbn [c_source c_buffer c_bits_read]. rewrite Hs.
+  rewrite bits_of_bytes_app, skipn_app, bits_of_bytes_length.
+  replace (Z.to_nat (c_bits_read r) - 8 * length (c_buffer r))%nat with 0%nat by (unfold zlength in Hbr; lia).
+  cbn [skipn]. rewrite <- app_assoc. f_equal.
+Qed.
+
+Lemma buffer_bytes_spec : forall n r r1 e, cinv r -> buffer_bytes n r = (r1, e) ->
+  cinv r1 /\ remaining r1 = remaining r /\ c_bits_read r1 = c_bits_read r /\
+  ((e = Ok tt /\ zlength (c_buffer r1) = zlength (c_buffer r) + Z.of_nat n) \/
+   (e = Err EEof /\ c_source r1 = [] /\ zlength (c_buffer r) <= zlength (c_buffer r1) < zlength (c_buffer r) + Z.of_nat n)).
+Proof.
+  induction n as [|n IH]; intros r r1 e Hinv H.
+  - cbn in H. inversion H; subst. repeat split; try apply Hinv. left. split; [reflexivity|lia].
+  - cbn [buffer_bytes] in H. destruct (c_source r) as [|b src] eqn:Es.
+    + inversion H; subst. repeat split; try apply Hinv. right. repeat split; [exact Es|lia|lia].
+    + destruct Hinv as (Hbr & Hbuf & Hsrc). rewrite Es in Hsrc. inversion Hsrc as [|? ? Hb Hsrc']; subst.
+      apply IH in H.
+      * destruct H as (I1 & I2 & I3 & I4). cbn [c_bits_read c_buffer] in *.
+        split; [exact I1|]. split; [rewrite I2; apply remaining_push; assumption|]. split; [exact I3|].
+        rewrite zlength_app in I4. change (zlength [b]) with 1 in I4.
+        destruct I4 as [[-> I4]|[-> [I4 I5]]]; [left|right]; repeat split; try assumption; lia.
+      * unfold cinv. cbn [c_bits_read c_buffer c_source]. rewrite zlength_app. change (zlength [b]) with 1.
+        repeat split; try lia; try assumption. apply Forall_app. split; [assumption|constructor; [assumption|constructor]].
+Qed.
+
+Lemma remaining_length r : 0 <= c_bits_read r <= 8 * zlength (c_buffer r) ->
+  Z.of_nat (length (remaining r)) = 8 * zlength (c_buffer r) - c_bits_read r + 8 * zlength (c_source r).
+Proof.
+  intros H. unfold remaining. rewrite app_length, skipn_length, !bits_of_bytes_length. unfold zlength in *. lia.
+Qed.
+
+Lemma ensure_bits_spec r n r1 e : cinv r -> 0 <= n -> ensure_bits r n = (r1, e) ->
+  cinv r1 /\ remaining r1 = remaining r /\ c_bits_read r1 = c_bits_read r /\
+  ((e = Ok tt /\ n <= 8 * zlength (c_buffer r1) - c_bits_read r1) \/
+   (e = Err EEof /\ Z.of_nat (length (remaining r)) < n)).
+Proof.
+  intros Hinv Hn H. unfold ensure_bits in H.
+  pose proof Hinv as (Hbr & _ & _).
+  apply buffer_bytes_spec in H; [|exact Hinv]. destruct H as (I1 & I2 & I3 & I4).
+  split; [exact I1|]. split; [exact I2|]. split; [exact I3|].
+  unfold needed_bytes_for_bits in I4. cbv zeta in I4.
+  set (avail := Z.max 0 (zlength (c_buffer r) * 8 - c_bits_read r)) in *.
+  set (short := Z.max 0 (n - avail)) in *.
+  assert (Hnb : 0 <= short / 8 + (if short mod 8 =? 0 then 0 else 1)) by (destruct (short mod 8 =? 0) eqn:E; lia).
+  rewrite Z2Nat.id in I4 by exact Hnb.
+  destruct I4 as [[-> I4]|[-> [I4 I5]]]; [left|right]; (split; [reflexivity|]).
+  - rewrite I3. destruct (short mod 8 =? 0) eqn:E; lia.
+  - rewrite <- I2. rewrite remaining_length by (destruct I1 as (? & _); lia). rewrite I4, I3. change (zlength []) with 0.
+    destruct (short mod 8 =? 0) eqn:E; lia.
+Qed.
+
+(* ---- the accumulator loop ---- *)
+Lemma skipn_bits_cons br byte rest : (br <= 8)%nat ->
+  skipn br (bits_of_bytes (byte :: rest)) = skipn br (byte_bits 8 byte) ++ bits_of_bytes rest.
+Proof.
+  intros H. change (bits_of_bytes (byte :: rest)) with (byte_bits 8 byte ++ bits_of_bytes rest).
+  rewrite skipn_app. change (length (byte_bits 8 byte)) with 8%nat. replace (br - 8)%nat with 0%nat by lia. reflexivity.
+Qed.
+
+Lemma peek_loop_spec w : forall bytes br needed accum a,
+  Forall isbyte bytes -> 0 <= br < 8 -> 0 <= needed -> 0 <= a -> 0 <= accum < 2 ^ a -> a + needed <= w ->
+  needed <= 8 * zlength bytes - br ->
+  exists v rest, take_bits (Z.to_nat needed) accum (skipn (Z.to_nat br) (bits_of_bytes bytes)) = Some (v, rest) /\
+                 peek_loop w bytes br needed accum = (v, 0).
+Proof.
+  induction bytes as [|byte rest IH]; intros br needed accum a Hb Hbr Hn Ha Hacc Hw Hlen.
+  - change (zlength (@nil Z)) with 0 in Hlen. assert (needed = 0) by lia. subst needed. cbn. eauto.
+  - cbn [peek_loop]. destruct (needed =? 0) eqn:E0.
+    + apply Z.eqb_eq in E0. subst needed. cbn [Z.to_nat take_bits]. eauto.
+    + apply Z.eqb_neq in E0. inversion Hb as [|? ? Hbyte Hrest]; subst.
+      set (k := Z.min (8 - br) needed).
+      assert (Hk : 1 <= k <= 8 - br) by (unfold k; lia).
+      destruct (top_correct byte br k Hbyte Hbr Hk) as (rst & Htop & Htr).
+      fold (top_of byte br k). cbv zeta.
+      set (top := top_of byte br k) in *.
+      set (accum' := if k <? w then Z.lor ((accum * 2 ^ k) mod 2 ^ w) top else top).
+      assert (Hacc' : accum' = accum * 2 ^ k + top /\ 0 <= accum' < 2 ^ (a + k)).
+      { assert (P1 : 0 < 2 ^ k) by (apply Z.pow_pos_nonneg; lia).
+        assert (P2 : 2 ^ (a + k) = 2 ^ a * 2 ^ k) by (apply Z.pow_add_r; lia).
+        assert (P3 : 2 ^ (a + k) <= 2 ^ w) by (apply Z.pow_le_mono_r; lia).
+        unfold accum'. destruct (k <? w) eqn:Ekw.
+        - rewrite Z.mod_small by nia. rewrite lor_low by lia. split; [reflexivity|nia].
+        - assert (a = 0) by lia. subst a. change (2 ^ 0) with 1 in Hacc. assert (accum = 0) by lia. subst accum.
+          split; [lia|]. cbn [Z.add]. lia. }
+      destruct Hacc' as [Eacc Racc].
+      rewrite skipn_bits_cons by lia.
+      replace (Z.to_nat needed) with (Z.to_nat k + Z.to_nat (needed - k))%nat by lia.
+      rewrite take_bits_add.
+      rewrite (take_bits_app _ _ _ _ (accum * 2 ^ k + top) rst).
+      2:{ rewrite take_bits_acc, Htop. rewrite Z2Nat.id by lia. reflexivity. }
+      rewrite <- Eacc.
+      destruct (Z.eq_dec needed k) as [Enk|Enk].
+      * replace (needed - k) with 0 by lia. cbn [Z.to_nat take_bits].
+        exists accum', (rst ++ bits_of_bytes rest). split; [reflexivity|].
+        destruct rest as [|b2 rest2]; [reflexivity|]. cbn [peek_loop]. reflexivity.
+      * assert (Hk8 : k = 8 - br) by (unfold k in *; lia).
+        assert (Hrst : rst = []).
+        { apply take_bits_length in Htop. rewrite skipn_length in Htop. change (length (byte_bits 8 byte)) with 8%nat in Htop.
+          destruct rst; [reflexivity|cbn [length] in Htop; lia]. }
+        subst rst. cbn [app].
+        destruct (IH 0 (needed - k) accum' (a + k) Hrest ltac:(lia) ltac:(lia) ltac:(lia) Racc ltac:(lia)) as (v & rr & T1 & T2).
+        { unfold zlength in *. cbn [length] in Hlen. lia. }
+        cbn [Z.to_nat skipn] in T1. exists v, rr. split; assumption.
+Qed.
+
+(* ---- r1 extends r0: the buffer has grown by bytes taken from the front of the source (no commit in between) ---- *)
+Definition ext (r0 r1 : creader) : Prop :=
+  exists moved, c_buffer r1 = c_buffer r0 ++ moved /\ c_source r0 = moved ++ c_source r1.
+Lemma ext_refl r : ext r r.
+Proof. exists []. rewrite app_nil_r. split; reflexivity. Qed.
+Lemma ext_trans a b c : ext a b -> ext b c -> ext a c.
+Proof.
+  intros (m1 & B1 & S1) (m2 & B2 & S2). exists (m1 ++ m2). rewrite B2, B1, S1, S2, !app_assoc. split; reflexivity.
+Qed.
+Lemma ext_bits a b br : ext a b -> ext a (mkC (c_source b) (c_buffer b) br).
+Proof. intros (m & B & S). exists m. split; assumption. Qed.
+
+Lemma buffer_bytes_ext : forall n r r1 e, buffer_bytes n r = (r1, e) -> ext r r1.
+Proof.
+  induction n as [|n IH]; intros r r1 e H; [cbn in H; inversion H; apply ext_refl|].
+  cbn [buffer_bytes] in H. destruct (c_source r) as [|b src] eqn:Es; [inversion H; apply ext_refl|].
+  apply IH in H. eapply ext_trans; [|exact H]. exists [b]. cbn [c_buffer c_source]. split; [reflexivity|exact Es].
+Qed.
+
+Definition lift_ty (t : ity) (a : res Z) : res Z :=
+  match a with Ok x => Ok (as_ty t x) | Err e => Err e | Panic p => Panic p | OutOfFuel => OutOfFuel end.
+
+Lemma as_ty_0 t : as_ty t 0 = 0.
+Proof. destruct t; reflexivity. Qed.
+
+Lemma zlength_skipn {A} n (l : list A) : (n <= length l)%nat -> zlength (skipn n l) = zlength l - Z.of_nat n.
+Proof. intros H. unfold zlength. rewrite skipn_length. lia. Qed.
+Lemma Forall_skipn {A} (P : A -> Prop) n l : Forall P l -> Forall P (skipn n l).
+Proof. intros H. apply Forall_forall. intros x Hx. rewrite Forall_forall in H. apply H. revert l Hx H. induction n; intros l Hx H; [exact Hx|]. destruct l; [destruct Hx|]. cbn in Hx. right. eapply IHn; eauto. intros y Hy. apply H. right. exact Hy. Qed.
+
+(* the buffered part of `remaining`, re-expressed from the byte the cursor is in *)
+Lemma remaining_from_byte r : cinv r ->
+  remaining r = skipn (Z.to_nat (c_bits_read r mod 8)) (bits_of_bytes (skipn (Z.to_nat (c_bits_read r / 8)) (c_buffer r)))
+                ++ bits_of_bytes (c_source r).
+Proof.
+  intros (Hbr & _ & _). unfold remaining. f_equal. unfold zlength in Hbr.
+  replace (Z.to_nat (c_bits_read r)) with (8 * Z.to_nat (c_bits_read r / 8) + Z.to_nat (c_bits_read r mod 8))%nat by lia.
+  apply skipn_bits_bytes. lia.
+Qed.
+
+(* ---- peek_bits ---- *)
+Theorem peek_bits_c_refines t n r r1 v : cinv r -> 0 <= n -> peek_bits_c t n r = (r1, v) ->
+  cinv r1 /\ ext r r1 /\ abs_reader r1 = abs_reader r /\ v = lift_ty t (peek_bits (width t) n (abs_reader r)).
+Proof.
+  intros Hinv Hn H. unfold peek_bits_c in H. unfold peek_bits. cbn [abs_reader rbits].
+  destruct (width t <? n) eqn:Ew.
+  - inversion H; subst. split; [exact Hinv|split; [apply ext_refl|split; reflexivity]].
+  - destruct (n =? 0) eqn:E0.
+    + apply Z.eqb_eq in E0. subst n. inversion H; subst. cbn [Z.to_nat take_bits lift_ty]. rewrite as_ty_0.
+      split; [exact Hinv|split; [apply ext_refl|split; reflexivity]].
+    + apply Z.eqb_neq in E0. destruct (ensure_bits r n) as [r2 e] eqn:Ee.
+      pose proof (buffer_bytes_ext _ _ _ _ Ee) as Hext.
+      destruct (ensure_bits_spec r n r2 e Hinv Hn Ee) as (I1 & I2 & I3 & I4).
+      assert (Habs : abs_reader r2 = abs_reader r) by (unfold abs_reader; rewrite I2, I3; reflexivity).
+      destruct I4 as [[-> I4]|[-> I4]].
+      * pose proof I1 as (Hbr & Hbuf & Hsrc). unfold zlength in Hbr.
+        destruct (peek_loop_spec (width t) (skipn (Z.to_nat (c_bits_read r2 / 8)) (c_buffer r2)) (c_bits_read r2 mod 8) n 0 0) as (x & rest & T1 & T2);
+          try lia.
+        { apply Forall_skipn. exact Hbuf. }
+        { rewrite zlength_skipn by lia. unfold zlength in *. lia. }
+        rewrite T2 in H. cbn [Z.eqb] in H. inversion H; subst r1 v.
+        rewrite <- I2, (remaining_from_byte r2 I1). rewrite (take_bits_app _ _ _ _ _ _ T1). cbn [lift_ty].
+        split; [exact I1|split; [exact Hext|split; [exact Habs|reflexivity]]].
+      * inversion H; subst r1 v. rewrite take_bits_none by lia. cbn [lift_ty]. split; [exact I1|split; [exact Hext|split; [exact Habs|reflexivity]]].
+Qed.
+
+Lemma skipn_skipn' {A} : forall b a (l : list A), skipn a (skipn b l) = skipn (b + a) l.
+Proof. induction b as [|b IH]; intros a l; [reflexivity|]. destruct l as [|x l]; [rewrite !skipn_nil; reflexivity|]. cbn [skipn Nat.add]. apply IH. Qed.
+
+(* ---- skip_bits ---- *)
+Theorem skip_bits_c_refines n r r1 e : cinv r -> 0 <= n -> skip_bits_c n r = (r1, e) ->
+  cinv r1 /\ ext r r1 /\
+  match skip_bits n (abs_reader r) with
+  | Ok a' => e = Ok tt /\ abs_reader r1 = a'
+  | Err x => e = Err x /\ abs_reader r1 = abs_reader r
+  | _ => False
+  end.
+Proof.
+  intros Hinv Hn H. unfold skip_bits_c in H. destruct (ensure_bits r n) as [r2 e2] eqn:Ee.
+  pose proof (buffer_bytes_ext _ _ _ _ Ee) as Hext.
+  destruct (ensure_bits_spec r n r2 e2 Hinv Hn Ee) as (I1 & I2 & I3 & I4).
+  unfold skip_bits. cbn [abs_reader rbits rpos].
+  destruct I4 as [[-> I4]|[-> I4]].
+  - inversion H; subst r1 e. pose proof I1 as (Hbr & Hbuf & Hsrc).
+    assert (Hlen : (Z.to_nat n <= length (remaining r))%nat).
+    { rewrite <- I2. pose proof (remaining_length r2 Hbr). unfold zlength in *. lia. }
+    destruct (take_bits_some (Z.to_nat n) 0 (remaining r) Hlen) as [x Hx]. rewrite Hx.
+    split; [|split; [apply ext_bits; exact Hext|split; [reflexivity|]]].
+    + unfold cinv. cbn [c_bits_read c_buffer c_source]. repeat split; try assumption; lia.
+    + unfold abs_reader. cbn [c_bits_read]. rewrite I3. f_equal.
+      rewrite <- I2. unfold remaining. cbn [c_bits_read c_buffer c_source].
+      rewrite skipn_app, skipn_skipn'. rewrite skipn_length, bits_of_bytes_length.
+      replace (Z.to_nat n - (8 * length (c_buffer r2) - Z.to_nat (c_bits_read r2)))%nat with 0%nat by (unfold zlength in *; lia).
+      cbn [skipn]. f_equal. f_equal. lia.
+  - inversion H; subst r1 e. rewrite take_bits_none by lia.
+    split; [exact I1|]. split; [exact Hext|]. split; [reflexivity|]. unfold abs_reader. rewrite I2, I3. reflexivity.
+Qed.
+
+(* ---- read_bits ---- *)
+Theorem read_bits_c_refines t n r r1 v : cinv r -> 0 <= n -> read_bits_c t n r = (r1, v) ->
+  cinv r1 /\ ext r r1 /\
+  match read_bits (width t) n (abs_reader r) with
+  | Ok (x, a') => v = Ok (as_ty t x) /\ abs_reader r1 = a'
+  | Err e => v = Err e /\ abs_reader r1 = abs_reader r
+  | _ => False
+  end.
+Proof.
+  intros Hinv Hn H. unfold read_bits_c in H. destruct (peek_bits_c t n r) as [r2 pv] eqn:Ep.
+  destruct (peek_bits_c_refines t n r r2 pv Hinv Hn Ep) as (I1 & X1 & A1 & V1).
+  unfold read_bits. destruct (peek_bits (width t) n (abs_reader r)) as [x|e|p|] eqn:Epk; cbn [lift_ty] in V1; subst pv; cbn [bind].
+  - destruct (skip_bits_c n r2) as [r3 se] eqn:Es.
+    destruct (skip_bits_c_refines n r2 r3 se I1 Hn Es) as (I2 & X2 & S2). rewrite A1 in S2.
+    destruct (skip_bits n (abs_reader r)) as [a'|e|p|] eqn:Esk; cbn [bind]; try contradiction.
+    + destruct S2 as [-> S2]. inversion H; subst. split; [exact I2|split; [eapply ext_trans; eauto|split; [reflexivity|first [exact S2|reflexivity]]]].
+    + destruct S2 as [-> S2]. inversion H; subst. split; [exact I2|split; [eapply ext_trans; eauto|split; [reflexivity|first [exact S2|reflexivity]]]].
+  - inversion H; subst. split; [exact I1|split; [exact X1|split; [reflexivity|exact A1]]].
+  - unfold peek_bits in Epk. destruct (width t <? n); [discriminate|]. destruct (take_bits _ _ _) as [[? ?]|]; discriminate.
+  - unfold peek_bits in Epk. destruct (width t <? n); [discriminate|]. destruct (take_bits _ _ _) as [[? ?]|]; discriminate.
+Qed.
+
+(* ---- signed reads ---- *)
+Lemma as_ty_mod t x : (as_ty t x) mod 2 ^ width t = x mod 2 ^ width t.
+Proof.
+  unfold as_ty. cbv zeta. assert (0 < 2 ^ width t) by (destruct t; reflexivity).
+  destruct (is_signed t && (2 ^ (width t - 1) <=? x mod 2 ^ width t)).
+  - replace (x mod 2 ^ width t - 2 ^ width t) with (x mod 2 ^ width t + (-1) * 2 ^ width t) by ring.
+    rewrite Z.mod_add by lia. apply Z.mod_mod. lia.
+  - apply Z.mod_mod. lia.
+Qed.
+
+Theorem peek_signed_bits_c_refines t n r r1 v : cinv r -> 0 <= n -> peek_signed_bits_c t n r = (r1, v) ->
+  cinv r1 /\ ext r r1 /\ abs_reader r1 = abs_reader r /\ v = lift_ty t (peek_signed_bits (width t) n (abs_reader r)).
+Proof.
+  intros Hinv Hn H. unfold peek_signed_bits_c in H. destruct (peek_bits_c t n r) as [r2 pv] eqn:Ep.
+  destruct (peek_bits_c_refines t n r r2 pv Hinv Hn Ep) as (I1 & X1 & A1 & V1).
+  unfold peek_signed_bits. unfold peek_bits in *. cbn [abs_reader rbits] in *.
+  destruct (width t <? n) eqn:Ew.
+  - cbn [lift_ty bind] in *. subst pv. inversion H; subst. split; [exact I1|split; [exact X1|split; [exact A1|reflexivity]]].
+  - destruct (take_bits (Z.to_nat n) 0 (remaining r)) as [[x rest]|] eqn:Et; cbn [lift_ty bind] in *; subst pv.
+    + destruct (n =? 0) eqn:E0.
+      * inversion H; subst. cbn [lift_ty]. rewrite as_ty_0. split; [exact I1|split; [exact X1|split; [exact A1|reflexivity]]].
+      * apply take_bits_range in Et. rewrite Z2Nat.id in Et by lia.
+        assert (P : 2 ^ n <= 2 ^ width t) by (apply Z.pow_le_mono_r; lia).
+        rewrite as_ty_mod in H. rewrite (Z.mod_small x) in H by lia.
+        destruct (Z.testbit x (n - 1)); inversion H; subst; cbn [lift_ty];
+          (split; [exact I1|split; [exact X1|split; [exact A1|reflexivity]]]).
+    + inversion H; subst. split; [exact I1|split; [exact X1|split; [exact A1|reflexivity]]].
+Qed.
+
+Theorem read_signed_bits_c_refines t n r r1 v : cinv r -> 0 <= n -> read_signed_bits_c t n r = (r1, v) ->
+  cinv r1 /\ ext r r1 /\
+  match read_signed_bits (width t) n (abs_reader r) with
+  | Ok (x, a') => v = Ok (as_ty t x) /\ abs_reader r1 = a'
+  | Err e => v = Err e /\ abs_reader r1 = abs_reader r
+  | _ => False
+  end.
+Proof.
+  intros Hinv Hn H. unfold read_signed_bits_c in H. destruct (peek_signed_bits_c t n r) as [r2 pv] eqn:Ep.
+  destruct (peek_signed_bits_c_refines t n r r2 pv Hinv Hn Ep) as (I1 & X1 & A1 & V1).
+  unfold read_signed_bits. destruct (peek_signed_bits (width t) n (abs_reader r)) as [x|e|p|] eqn:Epk; cbn [lift_ty] in V1; subst pv; cbn [bind].
+  - destruct (skip_bits_c n r2) as [r3 se] eqn:Es.
+    destruct (skip_bits_c_refines n r2 r3 se I1 Hn Es) as (I2 & X2 & S2). rewrite A1 in S2.
+    destruct (skip_bits n (abs_reader r)) as [a'|e|p|] eqn:Esk; cbn [bind]; try contradiction.
+    + destruct S2 as [-> S2]. inversion H; subst. split; [exact I2|split; [eapply ext_trans; eauto|split; [reflexivity|first [exact S2|reflexivity]]]].
+    + destruct S2 as [-> S2]. inversion H; subst. split; [exact I2|split; [eapply ext_trans; eauto|split; [reflexivity|first [exact S2|reflexivity]]]].
+  - inversion H; subst. split; [exact I1|split; [exact X1|split; [reflexivity|exact A1]]].
+  - exfalso. unfold peek_signed_bits, peek_bits in Epk. destruct (width t <? n); [discriminate|].
+    destruct (take_bits _ _ _) as [[? ?]|]; cbn [bind] in Epk; [|discriminate]. destruct (n =? 0); [discriminate|]. destruct (Z.testbit _ _); discriminate.
+  - exfalso. unfold peek_signed_bits, peek_bits in Epk. destruct (width t <? n); [discriminate|].
+    destruct (take_bits _ _ _) as [[? ?]|]; cbn [bind] in Epk; [|discriminate]. destruct (n =? 0); [discriminate|]. destruct (Z.testbit _ _); discriminate.
+Qed.
+
+(* ---- rollback, commit ---- *)
+Theorem rollback_restores r0 r1 : cinv r0 -> cinv r1 -> ext r0 r1 ->
+  exists r2, rollback (checkpoint r0) r1 = (r2, Ok tt) /\ cinv r2 /\ ext r0 r2 /\ abs_reader r2 = abs_reader r0.
+Proof.
+  intros (Hbr0 & Hb0 & Hs0) (Hbr1 & Hb1 & Hs1) (m & B & S). unfold rollback, checkpoint.
+  assert (Hl : zlength (c_buffer r1) = zlength (c_buffer r0) + zlength m) by (rewrite B; apply zlength_app).
+  assert (0 <= zlength m) by (unfold zlength; lia).
+  destruct (zlength (c_buffer r1) * 8 <? c_bits_read r0) eqn:E; [lia|].
+  eexists. split; [reflexivity|]. split; [|split].
+  - unfold cinv. cbn [c_bits_read c_buffer c_source]. repeat split; try assumption; lia.
+  - exists m. split; assumption.
+  - unfold abs_reader, remaining. cbn [c_bits_read c_buffer c_source]. f_equal.
+    rewrite B, S, !bits_of_bytes_app, skipn_app, bits_of_bytes_length.
+    replace (Z.to_nat (c_bits_read r0) - 8 * length (c_buffer r0))%nat with 0%nat by (unfold zlength in *; lia).
+    cbn [skipn]. rewrite app_assoc. reflexivity.
+Qed.
+
+Theorem commit_c_refines r : cinv r ->
+  cinv (commit_c r) /\ rbits (abs_reader (commit_c r)) = rbits (abs_reader r) /\
+  rpos (abs_reader (commit_c r)) mod 8 = rpos (abs_reader r) mod 8.
+Proof.
+  intros Hinv. pose proof Hinv as (Hbr & Hb & Hs). unfold commit_c. cbn [abs_reader rbits rpos c_bits_read].
+  split; [|split].
+  - unfold cinv. cbn [c_bits_read c_buffer c_source]. rewrite zlength_skipn by (unfold zlength in *; lia).
+    repeat split; try assumption; try (apply Forall_skipn; assumption); unfold zlength in *; lia.
+  - rewrite (remaining_from_byte r Hinv). unfold remaining. cbn [c_bits_read c_buffer c_source]. reflexivity.
+  - apply Z.mod_mod. lia.
+Qed.
+
+(* ---- start-code recognition ---- *)
+Lemma skip1_length r r' : skip_bits 1 r = Ok r' -> length (rbits r) = S (length (rbits r')).
+Proof.
+  unfold skip_bits. change (Z.to_nat 1) with 1%nat. cbn [take_bits]. destruct (rbits r) as [|x l]; [discriminate|].
+  intros H. inversion H; subst. reflexivity.
+Qed.
+
+Lemma start_code_go_fuel : forall f1 f2 ie mx skip r, (length (rbits r) < f1)%nat -> (length (rbits r) < f2)%nat ->
+  start_code_go f1 ie mx skip r = start_code_go f2 ie mx skip r.
+Proof.
+  induction f1 as [|f1 IH]; intros f2 ie mx skip r H1 H2; [lia|]. destruct f2 as [|f2]; [lia|].
+  cbn [start_code_go]. destruct (peek_bits 32 17 r) as [code|e|p|]; cbn [bind]; try reflexivity.
+  destruct (code =? 1); [reflexivity|]. destruct (negb ie && (mx <? skip)); [reflexivity|].
+  destruct (skip_bits 1 r) as [r'|e|p|] eqn:Es; cbn [bind]; try reflexivity.
+  apply skip1_length in Es. apply IH; lia.
+Qed.
+
+Lemma as_ty_small t x : 0 <= x < 2 ^ (width t - 1) -> as_ty t x = x.
+Proof.
+  intros H. unfold as_ty. cbv zeta.
+  assert (P : 2 ^ (width t - 1) < 2 ^ width t) by (destruct t; reflexivity).
+  rewrite Z.mod_small by lia. destruct (2 ^ (width t - 1) <=? x) eqn:E; [lia|]. rewrite andb_false_r. reflexivity.
+Qed.
+
+Lemma start_code_go_c_refines : forall f ie mx skip r r1 v, cinv r -> start_code_go_c f ie mx skip r = (r1, v) ->
+  cinv r1 /\ ext r r1 /\ v = start_code_go f ie mx skip (abs_reader r).
+Proof.
+  induction f as [|f IH]; intros ie mx skip r r1 v Hinv H; cbn [start_code_go_c start_code_go] in *.
+  - inversion H; subst. split; [exact Hinv|split; [apply ext_refl|reflexivity]].
+  - destruct (peek_bits_c U32 17 r) as [r2 pv] eqn:Ep.
+    destruct (peek_bits_c_refines U32 17 r r2 pv Hinv ltac:(lia) Ep) as (I1 & X1 & A1 & V1). change (width U32) with 32 in V1.
+    destruct (peek_bits 32 17 (abs_reader r)) as [x|e|p|] eqn:Epk; cbn [lift_ty] in V1; subst pv; cbn [bind].
+    + assert (Hx : 0 <= x < 2 ^ 17).
+      { unfold peek_bits in Epk. cbn [Z.ltb Z.compare Pos.compare Pos.compare_cont] in Epk.
+        destruct (take_bits (Z.to_nat 17) 0 (rbits (abs_reader r))) as [[x0 l0]|] eqn:Et; [|discriminate].
+        inversion Epk; subst. apply take_bits_range in Et. change (Z.of_nat (Z.to_nat 17)) with 17 in Et. lia. }
+      rewrite (as_ty_small U32 x) in H by (change (2 ^ (width U32 - 1)) with 2147483648; change (2 ^ 17) with 131072 in Hx; lia).
+      destruct (x =? 1); [inversion H; subst; split; [exact I1|split; [exact X1|reflexivity]]|].
+      destruct (negb ie && (mx <? skip)); [inversion H; subst; split; [exact I1|split; [exact X1|reflexivity]]|].
+      destruct (skip_bits_c 1 r2) as [r3 se] eqn:Es.
+      destruct (skip_bits_c_refines 1 r2 r3 se I1 ltac:(lia) Es) as (I2 & X2 & S2). rewrite A1 in S2.
+      destruct (skip_bits 1 (abs_reader r)) as [a'|e|p|] eqn:Esk; cbn [bind]; try contradiction.
+      * destruct S2 as [-> S2]. apply IH in H; [|exact I2]. destruct H as (I3 & X3 & V3). rewrite S2 in V3.
+        split; [exact I3|split; [eapply ext_trans; [exact X1|eapply ext_trans; eauto]|exact V3]].
+      * destruct S2 as [-> S2]. inversion H; subst. split; [exact I2|split; [eapply ext_trans; eauto|reflexivity]].
+    + inversion H; subst. split; [exact I1|split; [exact X1|reflexivity]].
+    + inversion H; subst. split; [exact I1|split; [exact X1|reflexivity]].
+    + inversion H; subst. split; [exact I1|split; [exact X1|reflexivity]].
+Qed.
+
+Theorem recognize_start_code_c_refines ie r r1 v : cinv r -> recognize_start_code_c ie r = (r1, v) ->
+  cinv r1 /\ ext r r1 /\ abs_reader r1 = abs_reader r /\ v = recognize_start_code ie (abs_reader r).
+Proof.
+  intros Hinv H. unfold recognize_start_code_c in H.
+  set (fuel := S (length (c_buffer r) * 8 + length (c_source r) * 8)) in *.
+  destruct (start_code_go_c fuel ie (realignment_bits_c r) 0 r) as [r2 v2] eqn:Eg.
+  destruct (start_code_go_c_refines _ _ _ _ _ _ _ Hinv Eg) as (I1 & X1 & V1).
+  destruct (rollback_restores r r2 Hinv I1 X1) as (r3 & Er & I3 & X3 & A3). rewrite Er in H. inversion H; subst r1 v.
+  split; [exact I3|split; [exact X3|split; [exact A3|]]].
+  rewrite V1. unfold recognize_start_code. change (realignment_bits_c r) with (realignment_bits (abs_reader r)).
+  apply start_code_go_fuel; cbn [abs_reader rbits]; pose proof Hinv as (Hbr & _ & _);
+    pose proof (remaining_length r Hbr); unfold fuel, zlength in *; lia.
+Qed.
+
+(* ---- VLC and UMV ---- *)
+Lemma read_bits_small_val w n r x a' : 0 <= n -> read_bits w n r = Ok (x, a') -> 0 <= x < 2 ^ n.
+Proof. intros Hn H. eapply read_bits_range; eauto. Qed.
+
+Lemma vlc_go_c_refines {T} (table : list (entry T)) : forall f index r r1 v, cinv r -> vlc_go_c f table index r = (r1, v) ->
+  cinv r1 /\ ext r r1 /\
+  match vlc_go f table index (abs_reader r) with
+  | Ok (t, a') => v = Ok t /\ abs_reader r1 = a'
+  | Err e => v = Err e
+  | Panic p => v = Panic p
+  | OutOfFuel => v = OutOfFuel
+  end.
+Proof.
+  induction f as [|f IH]; intros index r r1 v Hinv H; cbn [vlc_go_c vlc_go] in *.
+  - inversion H; subst. split; [exact Hinv|split; [apply ext_refl|reflexivity]].
+  - destruct (nth_error table index) as [[t|zero one]|].
+    + inversion H; subst. split; [exact Hinv|split; [apply ext_refl|split; reflexivity]].
+    + destruct (read_bits_c U8 1 r) as [r2 bv] eqn:Er.
+      destruct (read_bits_c_refines U8 1 r r2 bv Hinv ltac:(lia) Er) as (I1 & X1 & R1). change (width U8) with 8 in R1.
+      destruct (read_bits 8 1 (abs_reader r)) as [[x a']|e|p|] eqn:Erd; cbn [bind]; try contradiction.
+      * destruct R1 as [-> A1]. pose proof (read_bits_small_val 8 1 _ _ _ ltac:(lia) Erd) as Hx.
+        rewrite (as_ty_small U8 x) in H by (change (2 ^ (width U8 - 1)) with 128; change (2 ^ 1) with 2 in Hx; lia).
+        apply IH in H; [|exact I1]. destruct H as (I2 & X2 & V2). rewrite A1 in V2.
+        split; [exact I2|split; [eapply ext_trans; eauto|exact V2]].
+      * destruct R1 as [-> A1]. inversion H; subst. split; [exact I1|split; [exact X1|reflexivity]].
+    + inversion H; subst. split; [exact Hinv|split; [apply ext_refl|reflexivity]].
+Qed.
+
+Lemma umv_go_c_refines : forall f m b r r1 v, cinv r -> umv_go_c f m b r = (r1, v) ->
+  cinv r1 /\ ext r r1 /\
+  match umv_go f m b (abs_reader r) with
+  | Ok (t, a') => v = Ok t /\ abs_reader r1 = a'
+  | Err e => v = Err e
+  | Panic p => v = Panic p
+  | OutOfFuel => v = OutOfFuel
+  end.
+Proof.
+  induction f as [|f IH]; intros m b r r1 v Hinv H; cbn [umv_go_c umv_go] in *.
+  - inversion H; subst. split; [exact Hinv|split; [apply ext_refl|reflexivity]].
+  - destruct (b <? 4096).
+    + destruct (read_bits_c I32 2 r) as [r2 bv] eqn:Er.
+      destruct (read_bits_c_refines I32 2 r r2 bv Hinv ltac:(lia) Er) as (I1 & X1 & R1). change (width I32) with 32 in R1.
+      destruct (read_bits 32 2 (abs_reader r)) as [[x a']|e|p|] eqn:Erd; cbn [bind]; try contradiction.
+      * destruct R1 as [-> A1]. pose proof (read_bits_small_val 32 2 _ _ _ ltac:(lia) Erd) as Hx.
+        rewrite (as_ty_small I32 x) in H by (change (2 ^ (width I32 - 1)) with 2147483648; change (2 ^ 2) with 4 in Hx; lia).
+        destruct (x =? 0); [inversion H; subst; split; [exact I1|split; [exact X1|split; [reflexivity|first [exact A1|reflexivity]]]]|].
+        destruct (x =? 2); [inversion H; subst; split; [exact I1|split; [exact X1|split; [reflexivity|first [exact A1|reflexivity]]]]|].
+        destruct (x =? 1); (apply IH in H; [|exact I1]; destruct H as (I2 & X2 & V2); rewrite A1 in V2;
+          split; [exact I2|split; [eapply ext_trans; eauto|exact V2]]).
+      * destruct R1 as [-> A1]. inversion H; subst. split; [exact I1|split; [exact X1|reflexivity]].
+    + inversion H; subst. split; [exact Hinv|split; [apply ext_refl|reflexivity]].
+Qed.
+
+(* State-passing forms of the VLC and UMV reads over the abstract reader: a variable-length read that fails part
+   way (end of data, dangling table index, overlong UMV code) has consumed the bits it read; outside a transaction
+   the caller continues from there.  On success they agree with Reader.vlc_go / Reader.umv_go. *)
+Fixpoint vlc_go_s {T} (fuel : nat) (table : list (entry T)) (index : nat) (a : reader) : reader * res T :=
+  match fuel with
+  | O => (a, OutOfFuel)
+  | S f =>
+      match nth_error table index with
+      | Some (End t) => (a, Ok t)
+      | Some (Fork zero one) =>
+          match read_bits 8 1 a with
+          | Ok (bit, a') => vlc_go_s f table (if bit =? 0 then zero else one) a'
+          | Err e => (a, Err e) | Panic p => (a, Panic p) | OutOfFuel => (a, OutOfFuel)
+          end
+      | None => (a, Err EInternal)
+      end
+  end.
+Lemma vlc_go_s_agrees {T} (table : list (entry T)) : forall f index a,
+  match vlc_go f table index a with
+  | Ok (t, a') => vlc_go_s f table index a = (a', Ok t)
+  | Err e => snd (vlc_go_s f table index a) = Err e
+  | Panic p => snd (vlc_go_s f table index a) = Panic p
+  | OutOfFuel => snd (vlc_go_s f table index a) = OutOfFuel
+  end.
+Proof.
+  induction f as [|f IH]; intros index a; cbn [vlc_go vlc_go_s]; [reflexivity|].
+  destruct (nth_error table index) as [[t|zero one]|]; try reflexivity.
+  destruct (read_bits 8 1 a) as [[bit a']|e|p|]; cbn [bind]; try reflexivity. apply IH.
+Qed.
+
+Fixpoint umv_go_s (fuel : nat) (mantissa bulk : Z) (a : reader) : reader * res Z :=
+  match fuel with
+  | O => (a, OutOfFuel)
+  | S f =>
+      if bulk <? 4096 then
+        match read_bits 32 2 a with
+        | Ok (code, a') =>
+            if code =? 0 then (a', Ok (mantissa + bulk))
+            else if code =? 2 then (a', Ok (- (mantissa + bulk)))
+            else if code =? 1 then umv_go_s f (2 * mantissa) (2 * bulk) a'
+            else umv_go_s f (2 * mantissa + 1) (2 * bulk) a'
+        | Err e => (a, Err e) | Panic p => (a, Panic p) | OutOfFuel => (a, OutOfFuel)
+        end
+      else (a, Err EInvalidMvd)
+  end.
+Definition read_umv_s (a : reader) : reader * res Z :=
+  match read_bits 8 1 a with
+  | Ok (start, a') => if start =? 1 then (a', Ok 0) else umv_go_s 14 0 1 a'
+  | Err e => (a, Err e) | Panic p => (a, Panic p) | OutOfFuel => (a, OutOfFuel)
+  end.
+Lemma umv_go_s_agrees : forall f m b a,
+  match umv_go f m b a with
+  | Ok (t, a') => umv_go_s f m b a = (a', Ok t)
+  | Err e => snd (umv_go_s f m b a) = Err e
+  | Panic p => snd (umv_go_s f m b a) = Panic p
+  | OutOfFuel => snd (umv_go_s f m b a) = OutOfFuel
+  end.
+Proof.
+  induction f as [|f IH]; intros m b a; cbn [umv_go umv_go_s]; [reflexivity|].
+  destruct (b <? 4096); [|reflexivity].
+  destruct (read_bits 32 2 a) as [[code a']|e|p|]; cbn [bind]; try reflexivity.
+  destruct (code =? 0); [reflexivity|]. destruct (code =? 2); [reflexivity|]. destruct (code =? 1); apply IH.
+Qed.
+Lemma read_umv_s_agrees a :
+  match read_umv a with
+  | Ok (t, a') => read_umv_s a = (a', Ok t)
+  | Err e => snd (read_umv_s a) = Err e
+  | Panic p => snd (read_umv_s a) = Panic p
+  | OutOfFuel => snd (read_umv_s a) = OutOfFuel
+  end.
+Proof.
+  unfold read_umv, read_umv_s. destruct (read_bits 8 1 a) as [[st a']|e|p|]; cbn [bind]; try reflexivity.
+  destruct (st =? 1); [reflexivity|]. apply umv_go_s_agrees.
+Qed.
+
+Lemma vlc_go_c_sim {T} (table : list (entry T)) : forall f index r r1 v, cinv r -> vlc_go_c f table index r = (r1, v) ->
+  cinv r1 /\ ext r r1 /\ (abs_reader r1, v) = vlc_go_s f table index (abs_reader r).
+Proof.
+  induction f as [|f IH]; intros index r r1 v Hinv H; cbn [vlc_go_c vlc_go_s] in *.
+  - inversion H; subst. split; [exact Hinv|split; [apply ext_refl|reflexivity]].
+  - destruct (nth_error table index) as [[t|zero one]|].
+    + inversion H; subst. split; [exact Hinv|split; [apply ext_refl|reflexivity]].
+    + destruct (read_bits_c U8 1 r) as [r2 bv] eqn:Er.
+      destruct (read_bits_c_refines U8 1 r r2 bv Hinv ltac:(lia) Er) as (I1 & X1 & R1). change (width U8) with 8 in R1.
+      destruct (read_bits 8 1 (abs_reader r)) as [[x a']|e|p|] eqn:Erd; try contradiction.
+      * destruct R1 as [-> A1]. pose proof (read_bits_small_val 8 1 _ _ _ ltac:(lia) Erd) as Hx.
+        rewrite (as_ty_small U8 x) in H by (change (2 ^ (width U8 - 1)) with 128; change (2 ^ 1) with 2 in Hx; lia).
+        apply IH in H; [|exact I1]. destruct H as (I2 & X2 & V2). rewrite A1 in V2.
+        split; [exact I2|split; [eapply ext_trans; eauto|exact V2]].
+      * destruct R1 as [-> A1]. inversion H; subst. split; [exact I1|split; [exact X1|rewrite A1; reflexivity]].
+    + inversion H; subst. split; [exact Hinv|split; [apply ext_refl|reflexivity]].
+Qed.
+
+Lemma umv_go_c_sim : forall f m b r r1 v, cinv r -> umv_go_c f m b r = (r1, v) ->
+  cinv r1 /\ ext r r1 /\ (abs_reader r1, v) = umv_go_s f m b (abs_reader r).
+Proof.
+  induction f as [|f IH]; intros m b r r1 v Hinv H; cbn [umv_go_c umv_go_s] in *.
+  - inversion H; subst. split; [exact Hinv|split; [apply ext_refl|reflexivity]].
+  - destruct (b <? 4096).
+    + destruct (read_bits_c I32 2 r) as [r2 bv] eqn:Er.
+      destruct (read_bits_c_refines I32 2 r r2 bv Hinv ltac:(lia) Er) as (I1 & X1 & R1). change (width I32) with 32 in R1.
+      destruct (read_bits 32 2 (abs_reader r)) as [[x a']|e|p|] eqn:Erd; try contradiction.
+      * destruct R1 as [-> A1]. pose proof (read_bits_small_val 32 2 _ _ _ ltac:(lia) Erd) as Hx.
+        rewrite (as_ty_small I32 x) in H by (change (2 ^ (width I32 - 1)) with 2147483648; change (2 ^ 2) with 4 in Hx; lia).
+        destruct (x =? 0); [inversion H; subst; split; [exact I1|split; [exact X1|reflexivity]]|].
+        destruct (x =? 2); [inversion H; subst; split; [exact I1|split; [exact X1|reflexivity]]|].
+        destruct (x =? 1); (apply IH in H; [|exact I1]; destruct H as (I2 & X2 & V2); rewrite A1 in V2;
+          split; [exact I2|split; [eapply ext_trans; eauto|exact V2]]).
+      * destruct R1 as [-> A1]. inversion H; subst. split; [exact I1|split; [exact X1|rewrite A1; reflexivity]].
+    + inversion H; subst. split; [exact Hinv|split; [apply ext_refl|reflexivity]].
+Qed.
+
+Lemma read_umv_c_sim r r1 v : cinv r -> read_umv_c r = (r1, v) ->
+  cinv r1 /\ ext r r1 /\ (abs_reader r1, v) = read_umv_s (abs_reader r).
+Proof.
+  intros Hinv H. unfold read_umv_c, read_umv_s in *.
+  destruct (read_bits_c U8 1 r) as [r2 bv] eqn:Er.
+  destruct (read_bits_c_refines U8 1 r r2 bv Hinv ltac:(lia) Er) as (I1 & X1 & R1). change (width U8) with 8 in R1.
+  destruct (read_bits 8 1 (abs_reader r)) as [[x a']|e|p|] eqn:Erd; try contradiction.
+  - destruct R1 as [-> A1]. pose proof (read_bits_small_val 8 1 _ _ _ ltac:(lia) Erd) as Hx.
+    rewrite (as_ty_small U8 x) in H by (change (2 ^ (width U8 - 1)) with 128; change (2 ^ 1) with 2 in Hx; lia).
+    destruct (x =? 1); [inversion H; subst; split; [exact I1|split; [exact X1|reflexivity]]|].
+    apply umv_go_c_sim in H; [|exact I1]. destruct H as (I2 & X2 & V2). rewrite A1 in V2.
+    split; [exact I2|split; [eapply ext_trans; eauto|exact V2]].
+  - destruct R1 as [-> A1]. inversion H; subst. split; [exact I1|split; [exact X1|rewrite A1; reflexivity]].
+Qed.
+
+(* ------------------------------------------------------------------------------------------------------------
+   Any interleaving: an interpreter of the same operation trees over the ABSTRACT reader (a list of unread bits
+   and a position), in which a peek, a look-ahead, a failed read and a failed transaction leave the reader as it
+   was by construction; and the theorem that the concrete machine, started from any state satisfying the
+   invariant, produces the same tokens, the same final result and a final state whose abstraction is the abstract
+   interpreter's final reader. *)
+Definition commit_a (a : reader) : reader := mkReader (rbits a) (rpos a mod 8).
+Definition grow_a (a : reader) (bytes : list Z) : reader := mkReader (rbits a ++ bits_of_bytes bytes) (rpos a).
+
+Definition asimple (k : reader -> reader * list tok * res unit) (strict : bool) (a1 : reader) (v : res Z) : reader * list tok * res unit :=
+  match v with
+  | Ok _ => let '(a2, ts, e) := k a1 in (a2, tok_of_res v :: ts, e)
+  | Err e => if strict then (a1, [tok_of_res v], Err e)
+             else let '(a2, ts, e2) := k a1 in (a2, tok_of_res v :: ts, e2)
+  | Panic p => (a1, [TPanic], Panic p)
+  | OutOfFuel => (a1, [TPanic], OutOfFuel)
+  end.
+(* an abstract read: value and new reader, or an error and the old reader *)
+Definition aread {A} (a : reader) (x : res (A * reader)) (f : A -> Z) : reader * res Z :=
+  match x with Ok (v, a') => (a', Ok (f v)) | Err e => (a, Err e) | Panic p => (a, Panic p) | OutOfFuel => (a, OutOfFuel) end.
+
+Fixpoint run_ops_a (fuel : nat) (strict : bool) (ops : list rop) (a : reader) : reader * list tok * res unit :=
+  match fuel with
+  | O => (a, [], OutOfFuel)
+  | S f =>
+      match ops with
+      | [] => (a, [], Ok tt)
+      | o :: rest =>
+          let k := run_ops_a f strict rest in
+          let rd (x : reader * res Z) := asimple k strict (fst x) (snd x) in
+          match o with
+          | OPeek t n => asimple k strict a (lift_ty t (peek_bits (width t) n a))
+          | ORead t n => rd (aread a (read_bits (width t) n a) (as_ty t))
+          | OPeekS t n => asimple k strict a (lift_ty t (peek_signed_bits (width t) n a))
+          | OReadS t n => rd (aread a (read_signed_bits (width t) n a) (as_ty t))
+          | OSkip n => rd (match skip_bits n a with Ok a' => (a', Ok 0) | Err e => (a, Err e) | Panic p => (a, Panic p) | OutOfFuel => (a, OutOfFuel) end)
+          | OU8 => rd (aread a (read_bits 8 8 a) (as_ty U8))
+          | OVlc tb => rd (let tbl := if tb =? 0 then test_table_0 else test_table_1 in vlc_go_s (S (length tbl)) tbl 0%nat a)
+          | OUmv => rd (read_umv_s a)
+          | OStartCode ie =>
+              match recognize_start_code ie a with
+              | Ok None => let '(a2, ts, e) := k a in (a2, TNone :: ts, e)
+              | Ok (Some s) => let '(a2, ts, e) := k a in (a2, TSome s :: ts, e)
+              | Err e => if strict then (a, [TErr e], Err e) else let '(a2, ts, e2) := k a in (a2, TErr e :: ts, e2)
+              | Panic p => (a, [TPanic], Panic p)
+              | OutOfFuel => (a, [TPanic], OutOfFuel)
+              end
+          | OCommit => let '(a2, ts, e) := k (commit_a a) in (a2, TUnit :: ts, e)
+          | OGrow bytes => let '(a2, ts, e) := k (grow_a a bytes) in (a2, TUnit :: ts, e)
+          | OTx body force_err =>
+              let '(a1, ts1, e1) := run_ops_a f true body a in
+              let result : res (option unit) :=
+                match e1 with
+                | Ok _ => if force_err then Err EInvalidBitstream else Ok (Some tt)
+                | Err e => Err e | Panic p => Panic p | OutOfFuel => OutOfFuel
+                end in
+              match result with
+              | Panic p => (a1, ts1 ++ [TPanic], Panic p)
+              | OutOfFuel => (a1, ts1 ++ [TPanic], OutOfFuel)
+              | Err e => let '(a3, ts, e3) := k a in (a3, ts1 ++ TClose 0 (Err e) :: ts, e3)       (* nothing consumed *)
+              | Ok v => let '(a3, ts, e3) := k a1 in (a3, ts1 ++ TClose 0 (Ok v) :: ts, e3)
+              end
+          | OTxUnion body verdict =>
+              let '(a1, ts1, e1) := run_ops_a f true body a in
+              let result : res (option unit) :=
+                match e1 with
+                | Ok _ => if verdict =? 1 then Err EInvalidBitstream else if verdict =? 2 then Ok None else Ok (Some tt)
+                | Err e => Err e | Panic p => Panic p | OutOfFuel => OutOfFuel
+                end in
+              match result with
+              | Panic p => (a1, ts1 ++ [TPanic], Panic p)
+              | OutOfFuel => (a1, ts1 ++ [TPanic], OutOfFuel)
+              | Ok (Some v) => let '(a3, ts, e3) := k a1 in (a3, ts1 ++ TClose 1 (Ok (Some v)) :: ts, e3)
+              | _ => let '(a3, ts, e3) := k a in (a3, ts1 ++ TClose 1 result :: ts, e3)            (* nothing consumed *)
+              end
+          | OLookahead body =>
+              let '(a1, ts1, e1) := run_ops_a f true body a in
+              match e1 with
+              | Panic p => (a1, ts1 ++ [TPanic], Panic p)
+              | OutOfFuel => (a1, ts1 ++ [TPanic], OutOfFuel)
+              | _ =>
+                  let final : res (option unit) := match e1 with Ok _ => Ok (Some tt) | Err e => Err e | Panic p => Panic p | OutOfFuel => OutOfFuel end in
+                  let '(a3, ts, e3) := k a in (a3, ts1 ++ TClose 2 final :: ts, e3)                 (* nothing consumed *)
+              end
+          end
+      end
+  end.
+
+(* operation trees the theorem covers: widths are naturals (u32 in the code), grown bytes are bytes, and no commit
+   or source growth happens INSIDE a transaction or look-ahead (a checkpoint is a bit offset into the buffer that
+   commit truncates: the code has the same restriction) *)
+Fixpoint pure_op (o : rop) : bool :=
+  match o with
+  | OCommit | OGrow _ => false
+  | OTx b _ | OTxUnion b _ | OLookahead b => forallb pure_op b
+  | _ => true
+  end.
+Fixpoint wf_op (o : rop) : bool :=
+  match o with
+  | OPeek _ n | ORead _ n | OPeekS _ n | OReadS _ n | OSkip n => 0 <=? n
+  | OGrow bytes => forallb (fun b => (0 <=? b) && (b <? 256)) bytes
+  | OTx b _ | OTxUnion b _ | OLookahead b => forallb pure_op b && forallb wf_op b
+  | _ => true
+  end.
+
+Definition rel (r : creader) (pure : bool) (c : creader * list tok * res unit) (a : reader * list tok * res unit) : Prop :=
+  cinv (fst (fst c)) /\ abs_reader (fst (fst c)) = fst (fst a) /\ snd (fst c) = snd (fst a) /\ snd c = snd a /\
+  (pure = true -> ext r (fst (fst c))).
+
+Definition csimple (k : creader -> creader * list tok * res unit) (strict : bool) (x : creader * res Z) : creader * list tok * res unit :=
+  let '(r1, v) := x in
+  match v with
+  | Ok _ => let '(r2, ts, e) := k r1 in (r2, tok_of_res v :: ts, e)
+  | Err e => if strict then (r1, [tok_of_res v], Err e)
+             else let '(r2, ts, e2) := k r1 in (r2, tok_of_res v :: ts, e2)
+  | Panic p => (r1, [TPanic], Panic p)
+  | OutOfFuel => (r1, [TPanic], OutOfFuel)
+  end.
+
+Lemma simple_sim (kc : creader -> creader * list tok * res unit) (ka : reader -> reader * list tok * res unit) pure strict r r1 cv a1 :
+  (forall r', cinv r' -> rel r' pure (kc r') (ka (abs_reader r'))) ->
+  cinv r1 -> abs_reader r1 = a1 -> ext r r1 ->
+  rel r pure (csimple kc strict (r1, cv)) (asimple ka strict a1 cv).
+Proof.
+  intros IH I1 A1 X1. unfold csimple, asimple. subst a1.
+  assert (K : rel r pure (let '(r2, ts, e) := kc r1 in (r2, tok_of_res cv :: ts, e))
+                         (let '(a2, ts, e) := ka (abs_reader r1) in (a2, tok_of_res cv :: ts, e))).
+  { specialize (IH r1 I1). destruct (kc r1) as [[r2 ts] e]. destruct (ka (abs_reader r1)) as [[a2 ts'] e'].
+    unfold rel in *. cbn [fst snd] in *. destruct IH as (J1 & J2 & J3 & J4 & J5).
+    split; [exact J1|split; [exact J2|split; [f_equal; exact J3|split; [exact J4|]]]].
+    intros Hp. eapply ext_trans; [exact X1|apply J5; exact Hp]. }
+  destruct cv as [x|e|p|].
+  - exact K.
+  - destruct strict; [|exact K]. unfold rel. cbn [fst snd]. split; [exact I1|split; [reflexivity|split; [reflexivity|split; [reflexivity|intros _; exact X1]]]].
+  - unfold rel. cbn [fst snd]. split; [exact I1|split; [reflexivity|split; [reflexivity|split; [reflexivity|intros _; exact X1]]]].
+  - unfold rel. cbn [fst snd]. split; [exact I1|split; [reflexivity|split; [reflexivity|split; [reflexivity|intros _; exact X1]]]].
+Qed.
+
+Lemma forallb_byte_isbyte bytes : forallb (fun b => (0 <=? b) && (b <? 256)) bytes = true -> Forall isbyte bytes.
+Proof. intros H. rewrite forallb_forall in H. apply Forall_forall. intros x Hx. specialize (H x Hx). unfold isbyte. lia. Qed.
+
+Lemma cont_sim (kc : creader -> creader * list tok * res unit) (ka : reader -> reader * list tok * res unit) pure r r1 a1 pre T :
+  (forall r', cinv r' -> rel r' pure (kc r') (ka (abs_reader r'))) ->
+  cinv r1 -> abs_reader r1 = a1 -> (pure = true -> ext r r1) ->
+  rel r pure (let '(r2, ts, e) := kc r1 in (r2, pre ++ T :: ts, e)) (let '(a2, ts, e) := ka a1 in (a2, pre ++ T :: ts, e)).
+Proof.
+  intros IH I1 A1 X1. subst a1. specialize (IH r1 I1). destruct (kc r1) as [[r2 ts] e]. destruct (ka (abs_reader r1)) as [[a2 ts'] e'].
+  unfold rel in *. cbn [fst snd] in *. destruct IH as (J1 & J2 & J3 & J4 & J5).
+  split; [exact J1|split; [exact J2|split; [rewrite J3; reflexivity|split; [exact J4|]]]].
+  intros Hp. eapply ext_trans; [apply X1; exact Hp|apply J5; exact Hp].
+Qed.
+
+Lemma rel_false r r' p c a : rel r' p c a -> rel r false c a.
+Proof. unfold rel. intros (J1 & J2 & J3 & J4 & _). split; [exact J1|split; [exact J2|split; [exact J3|split; [exact J4|discriminate]]]]. Qed.
+
+Lemma stop_sim r pure r1 a1 ts e : cinv r1 -> abs_reader r1 = a1 -> (pure = true -> ext r r1) -> rel r pure (r1, ts, e) (a1, ts, e).
+Proof. intros H1 H2 H3. unfold rel. cbn [fst snd]. split; [exact H1|split; [exact H2|split; [reflexivity|split; [reflexivity|exact H3]]]]. Qed.
+
+Lemma grow_abs r bytes : abs_reader (mkC (c_source r ++ bytes) (c_buffer r) (c_bits_read r)) = grow_a (abs_reader r) bytes.
+Proof. unfold abs_reader, grow_a, remaining. cbn [c_source c_buffer c_bits_read rbits rpos]. rewrite bits_of_bytes_app, app_assoc. reflexivity. Qed.
+
+Lemma commit_abs r : cinv r -> abs_reader (commit_c r) = commit_a (abs_reader r).
+Proof.
+  intros Hinv. destruct (commit_c_refines r Hinv) as (_ & Hb & _). unfold commit_a. cbn [abs_reader rbits rpos] in *.
+  unfold abs_reader. rewrite Hb. reflexivity.
+Qed.
+
+Ltac rd_case L :=
+  match goal with
+  | |- rel _ _ (csimple _ _ ?x) _ =>
+      let r1 := fresh "r1" in let v := fresh "v" in let E := fresh "E" in
+      destruct x as [r1 v] eqn:E;
+      let I1 := fresh "I1" in let X1 := fresh "X1" in let R1 := fresh "R1" in
+      destruct (L r1 v) as (I1 & X1 & R1); [assumption|try lia|exact E|]
+  end.
+
+Theorem run_ops_refines : forall fuel strict ops r, cinv r -> forallb wf_op ops = true ->
+  rel r (forallb pure_op ops) (run_ops fuel strict ops r) (run_ops_a fuel strict ops (abs_reader r)).
+Proof.
+  induction fuel as [|f IH]; intros strict ops r Hinv Hwf.
+  - cbn. apply stop_sim; [exact Hinv|reflexivity|intros _; apply ext_refl].
+  - destruct ops as [|o rest].
+    + cbn. apply stop_sim; [exact Hinv|reflexivity|intros _; apply ext_refl].
+    + cbn [forallb] in Hwf. apply andb_prop in Hwf. destruct Hwf as [Hwo Hwr].
+      assert (IHr : forall r', cinv r' -> rel r' (forallb pure_op rest) (run_ops f strict rest r') (run_ops_a f strict rest (abs_reader r')))
+        by (intros r' Hr'; apply IH; assumption).
+      destruct o as [t n|t n|t n|t n|n| |tb| |ie| |body fe|body vd|body|bytes]; cbn [forallb pure_op andb wf_op] in *.
+      * (* OPeek *)
+        change (run_ops (S f) strict (OPeek t n :: rest) r) with (csimple (run_ops f strict rest) strict (peek_bits_c t n r)).
+        change (run_ops_a (S f) strict (OPeek t n :: rest) (abs_reader r))
+          with (asimple (run_ops_a f strict rest) strict (abs_reader r) (lift_ty t (peek_bits (width t) n (abs_reader r)))).
+        destruct (peek_bits_c t n r) as [r1 v] eqn:E.
+        destruct (peek_bits_c_refines t n r r1 v Hinv ltac:(lia) E) as (I1 & X1 & A1 & V1). subst v.
+        apply simple_sim; assumption.
+      * (* ORead *)
+        change (run_ops (S f) strict (ORead t n :: rest) r) with (csimple (run_ops f strict rest) strict (read_bits_c t n r)).
+        change (run_ops_a (S f) strict (ORead t n :: rest) (abs_reader r))
+          with (let x := aread (abs_reader r) (read_bits (width t) n (abs_reader r)) (as_ty t) in asimple (run_ops_a f strict rest) strict (fst x) (snd x)).
+        destruct (read_bits_c t n r) as [r1 v] eqn:E.
+        destruct (read_bits_c_refines t n r r1 v Hinv ltac:(lia) E) as (I1 & X1 & R1).
+        destruct (read_bits (width t) n (abs_reader r)) as [[x a']|e|p|]; try contradiction; destruct R1 as [-> A1]; cbn [aread fst snd];
+          apply simple_sim; assumption.
+      * (* OPeekS *)
+        change (run_ops (S f) strict (OPeekS t n :: rest) r) with (csimple (run_ops f strict rest) strict (peek_signed_bits_c t n r)).
+        change (run_ops_a (S f) strict (OPeekS t n :: rest) (abs_reader r))
+          with (asimple (run_ops_a f strict rest) strict (abs_reader r) (lift_ty t (peek_signed_bits (width t) n (abs_reader r)))).
+        destruct (peek_signed_bits_c t n r) as [r1 v] eqn:E.
+        destruct (peek_signed_bits_c_refines t n r r1 v Hinv ltac:(lia) E) as (I1 & X1 & A1 & V1). subst v.
+        apply simple_sim; assumption.
+      * (* OReadS *)
+        change (run_ops (S f) strict (OReadS t n :: rest) r) with (csimple (run_ops f strict rest) strict (read_signed_bits_c t n r)).
+        change (run_ops_a (S f) strict (OReadS t n :: rest) (abs_reader r))
+          with (let x := aread (abs_reader r) (read_signed_bits (width t) n (abs_reader r)) (as_ty t) in asimple (run_ops_a f strict rest) strict (fst x) (snd x)).
+        destruct (read_signed_bits_c t n r) as [r1 v] eqn:E.
+        destruct (read_signed_bits_c_refines t n r r1 v Hinv ltac:(lia) E) as (I1 & X1 & R1).
+        destruct (read_signed_bits (width t) n (abs_reader r)) as [[x a']|e|p|]; try contradiction; destruct R1 as [-> A1]; cbn [aread fst snd];
+          apply simple_sim; assumption.
+      * (* OSkip *)
+        change (run_ops (S f) strict (OSkip n :: rest) r)
+          with (csimple (run_ops f strict rest) strict
+                  (let '(r1, e) := skip_bits_c n r in (r1, match e with Ok _ => Ok 0 | Err e => Err e | Panic p => Panic p | OutOfFuel => OutOfFuel end))).
+        change (run_ops_a (S f) strict (OSkip n :: rest) (abs_reader r))
+          with (let x := match skip_bits n (abs_reader r) with Ok a' => (a', Ok 0) | Err e => (abs_reader r, Err e)
+                         | Panic p => (abs_reader r, Panic p) | OutOfFuel => (abs_reader r, OutOfFuel) end in
+                asimple (run_ops_a f strict rest) strict (fst x) (snd x)).
+        destruct (skip_bits_c n r) as [r1 e] eqn:E.
+        destruct (skip_bits_c_refines n r r1 e Hinv ltac:(lia) E) as (I1 & X1 & R1).
+        destruct (skip_bits n (abs_reader r)) as [a'|e'|p|]; try contradiction; destruct R1 as [-> A1]; cbn [fst snd];
+          apply simple_sim; assumption.
+      * (* OU8 *)
+        change (run_ops (S f) strict (OU8 :: rest) r) with (csimple (run_ops f strict rest) strict (read_bits_c U8 8 r)).
+        change (run_ops_a (S f) strict (OU8 :: rest) (abs_reader r))
+          with (let x := aread (abs_reader r) (read_bits 8 8 (abs_reader r)) (as_ty U8) in asimple (run_ops_a f strict rest) strict (fst x) (snd x)).
+        destruct (read_bits_c U8 8 r) as [r1 v] eqn:E.
+        destruct (read_bits_c_refines U8 8 r r1 v Hinv ltac:(lia) E) as (I1 & X1 & R1). change (width U8) with 8 in R1.
+        destruct (read_bits 8 8 (abs_reader r)) as [[x a']|e|p|]; try contradiction; destruct R1 as [-> A1]; cbn [aread fst snd];
+          apply simple_sim; assumption.
+      * (* OVlc *)
+        change (run_ops (S f) strict (OVlc tb :: rest) r)
+          with (csimple (run_ops f strict rest) strict (read_vlc_c (if tb =? 0 then test_table_0 else test_table_1) r)).
+        change (run_ops_a (S f) strict (OVlc tb :: rest) (abs_reader r))
+          with (let x := (let tbl := if tb =? 0 then test_table_0 else test_table_1 in vlc_go_s (S (length tbl)) tbl 0%nat (abs_reader r)) in
+                asimple (run_ops_a f strict rest) strict (fst x) (snd x)).
+        unfold read_vlc_c. cbv zeta.
+        destruct (vlc_go_c _ _ _ r) as [r1 v] eqn:E.
+        destruct (vlc_go_c_sim _ _ _ r r1 v Hinv E) as (I1 & X1 & V1). rewrite <- V1. cbn [fst snd].
+        apply simple_sim; try assumption. reflexivity.
+      * (* OUmv *)
+        change (run_ops (S f) strict (OUmv :: rest) r) with (csimple (run_ops f strict rest) strict (read_umv_c r)).
+        change (run_ops_a (S f) strict (OUmv :: rest) (abs_reader r))
+          with (let x := read_umv_s (abs_reader r) in asimple (run_ops_a f strict rest) strict (fst x) (snd x)).
+        destruct (read_umv_c r) as [r1 v] eqn:E.
+        destruct (read_umv_c_sim r r1 v Hinv E) as (I1 & X1 & V1). cbv zeta. rewrite <- V1. cbn [fst snd].
+        apply simple_sim; try assumption. reflexivity.
+      * (* OStartCode *)
+        cbn [run_ops run_ops_a]. cbv zeta.
+        destruct (recognize_start_code_c ie r) as [r1 v] eqn:E.
+        destruct (recognize_start_code_c_refines ie r r1 v Hinv E) as (I1 & X1 & A1 & V1). subst v.
+        destruct (recognize_start_code ie (abs_reader r)) as [[s|]|e|p|].
+        -- apply (cont_sim _ _ _ r r1 (abs_reader r) [] (TSome s)); try assumption. intros _; exact X1.
+        -- apply (cont_sim _ _ _ r r1 (abs_reader r) [] TNone); try assumption. intros _; exact X1.
+        -- destruct strict.
+           ++ apply stop_sim; [exact I1|exact A1|intros _; exact X1].
+           ++ apply (cont_sim _ _ _ r r1 (abs_reader r) [] (TErr e)); try assumption. intros _; exact X1.
+        -- apply stop_sim; [exact I1|exact A1|intros _; exact X1].
+        -- apply stop_sim; [exact I1|exact A1|intros _; exact X1].
+      * (* OCommit *)
+        cbn [run_ops run_ops_a]. cbv zeta.
+        destruct (commit_c_refines r Hinv) as (I1 & _ & _).
+        apply (cont_sim _ _ false r (commit_c r) (commit_a (abs_reader r)) [] TUnit);
+          [intros r' Hr'; eapply rel_false; apply IHr; exact Hr'|exact I1|apply commit_abs; exact Hinv|discriminate].
+      * (* OTx *)
+        apply andb_prop in Hwo. destruct Hwo as [Hpb Hwb].
+        pose proof (IH true body r Hinv Hwb) as IB. rewrite Hpb in IB. rewrite Hpb. cbn [andb].
+        cbn [run_ops run_ops_a]. cbv zeta.
+        destruct (run_ops f true body r) as [[r1 ts1] e1]. destruct (run_ops_a f true body (abs_reader r)) as [[a1 ts1'] e1'].
+        unfold rel in IB. cbn [fst snd] in IB. destruct IB as (I1 & A1 & <- & <- & X1). specialize (X1 eq_refl).
+        destruct (rollback_restores r r1 Hinv I1 X1) as (r2 & Er & I2 & X2 & A2).
+        destruct e1 as [u|e|p|].
+        -- destruct fe.
+           ++ rewrite Er. apply (cont_sim _ _ _ r r2 (abs_reader r) ts1 (TClose 0 (Err EInvalidBitstream))); try assumption. intros _; exact X2.
+           ++ apply (cont_sim _ _ _ r r1 a1 ts1 (TClose 0 (Ok (Some tt)))); try assumption. intros _; exact X1.
+        -- rewrite Er. apply (cont_sim _ _ _ r r2 (abs_reader r) ts1 (TClose 0 (Err e))); try assumption. intros _; exact X2.
+        -- apply stop_sim; [exact I1|exact A1|intros _; exact X1].
+        -- apply stop_sim; [exact I1|exact A1|intros _; exact X1].
+      * (* OTxUnion *)
+        apply andb_prop in Hwo. destruct Hwo as [Hpb Hwb].
+        pose proof (IH true body r Hinv Hwb) as IB. rewrite Hpb in IB. rewrite Hpb. cbn [andb].
+        cbn [run_ops run_ops_a]. cbv zeta.
+        destruct (run_ops f true body r) as [[r1 ts1] e1]. destruct (run_ops_a f true body (abs_reader r)) as [[a1 ts1'] e1'].
+        unfold rel in IB. cbn [fst snd] in IB. destruct IB as (I1 & A1 & <- & <- & X1). specialize (X1 eq_refl).
+        destruct (rollback_restores r r1 Hinv I1 X1) as (r2 & Er & I2 & X2 & A2).
+        destruct e1 as [u|e|p|].
+        -- destruct (vd =? 1).
+           ++ rewrite Er. apply (cont_sim _ _ _ r r2 (abs_reader r) ts1 (TClose 1 (Err EInvalidBitstream))); try assumption. intros _; exact X2.
+           ++ destruct (vd =? 2).
+              ** rewrite Er. apply (cont_sim _ _ _ r r2 (abs_reader r) ts1 (TClose 1 (Ok None))); try assumption. intros _; exact X2.
+              ** apply (cont_sim _ _ _ r r1 a1 ts1 (TClose 1 (Ok (Some tt)))); try assumption. intros _; exact X1.
+        -- rewrite Er. apply (cont_sim _ _ _ r r2 (abs_reader r) ts1 (TClose 1 (Err e))); try assumption. intros _; exact X2.
+        -- apply stop_sim; [exact I1|exact A1|intros _; exact X1].
+        -- apply stop_sim; [exact I1|exact A1|intros _; exact X1].
+      * (* OLookahead *)
+        apply andb_prop in Hwo. destruct Hwo as [Hpb Hwb].
+        pose proof (IH true body r Hinv Hwb) as IB. rewrite Hpb in IB. rewrite Hpb. cbn [andb].
+        cbn [run_ops run_ops_a]. cbv zeta.
+        destruct (run_ops f true body r) as [[r1 ts1] e1]. destruct (run_ops_a f true body (abs_reader r)) as [[a1 ts1'] e1'].
+        unfold rel in IB. cbn [fst snd] in IB. destruct IB as (I1 & A1 & <- & <- & X1). specialize (X1 eq_refl).
+        destruct (rollback_restores r r1 Hinv I1 X1) as (r2 & Er & I2 & X2 & A2).
+        destruct e1 as [u|e|p|].
+        -- rewrite Er. apply (cont_sim _ _ _ r r2 (abs_reader r) ts1 (TClose 2 (Ok (Some tt)))); try assumption. intros _; exact X2.
+        -- rewrite Er. apply (cont_sim _ _ _ r r2 (abs_reader r) ts1 (TClose 2 (Err e))); try assumption. intros _; exact X2.
+        -- apply stop_sim; [exact I1|exact A1|intros _; exact X1].
+        -- apply stop_sim; [exact I1|exact A1|intros _; exact X1].
+      * (* OGrow *)
+        cbn [run_ops run_ops_a]. cbv zeta.
+        apply (cont_sim _ _ false r (mkC (c_source r ++ bytes) (c_buffer r) (c_bits_read r)) (grow_a (abs_reader r) bytes) [] TUnit);
+          [intros r' Hr'; eapply rel_false; apply IHr; exact Hr'| |apply grow_abs|discriminate].
+        destruct Hinv as (H1 & H2 & H3). unfold cinv. cbn [c_source c_buffer c_bits_read]. split; [exact H1|split; [exact H2|]].
+        apply Forall_app. split; [exact H3|apply forallb_byte_isbyte; exact Hwo].
+Qed.
+
+(* from a fresh reader over any byte string *)
+Theorem reader_refines bytes ops fuel : Forall isbyte bytes -> forallb wf_op ops = true ->
+  let c := run_ops fuel false ops (from_source bytes) in
+  let a := run_ops_a fuel false ops (reader_of_bytes bytes) in
+  snd (fst c) = snd (fst a) /\ snd c = snd a /\ abs_reader (fst (fst c)) = fst (fst a).
+Proof.
+  intros Hb Hwf. cbv zeta.
+  assert (Hinv : cinv (from_source bytes)).
+  { unfold cinv, from_source. cbn [c_bits_read c_buffer c_source]. change (zlength (@nil Z)) with 0. split; [lia|split; [constructor|exact Hb]]. }
+  pose proof (run_ops_refines fuel false ops (from_source bytes) Hinv Hwf) as R.
+  change (abs_reader (from_source bytes)) with (reader_of_bytes bytes) in R.
+  unfold rel in R. destruct R as (_ & A & T & E & _). split; [exact T|split; [exact E|exact A]].
+Qed.
